@@ -148,6 +148,33 @@ def rule_index_bound(ctx, cd):
                "without the override option the macro is defined unconditionally as t.capacity")
 
 
+def rule_count_rejected_everywhere(ctx, cd):
+    R = "R-C04-INDEX-BOUND"
+    n = 0
+    for lang, which, mname in (("c", "ser", "_serialize_variable_length_array"), ("c", "des", "_deserialize_variable_length_array"),
+                               ("cpp", "des", "_deserialize_variable_length_array"), ("cpp", "ser", "_serialize_variable_length_array")):
+        if not cd.has_macro(lang, which, mname):
+            continue
+        t = cd.tmpl(lang, which)
+        bad = []
+        paths = cd.paths(lang, which, mname)
+        for p in paths:
+            text = cd.text(lang, p)
+            cap = p.name_of("t.capacity")
+            m = re.search(r"if \( ?[^;{}]*? > (Pz\d+z|\w+)U? ?\) ?\{ ?return -", text)
+            ok = m is not None and (m.group(1) == cap or "ARRAY_CAPACITY_" in (p.xs_of(m.group(1)) or m.group(1)))
+            if ok:
+                first = [x.start() for x in re.finditer(r"\bfor ?\(|GetBits\(|CopyBits\(|memmove\(|\.reserve\(|push_back", text)]
+                ok = not first or m.start() < min(first)
+            if not ok:
+                bad.append(" & ".join(("" if pol else "not ") + c for c, pol in p.conds)[-100:] or "always")
+        n += 1
+        ctx.ob(R, t.rel, f"{lang}: {mname}: every template path rejects a count above the capacity before touching the elements ({len(paths)} paths)", not bad,
+               "" if not bad else f"no rejection on the path(s) [{bad[0]}]" + (f" and {len(bad) - 1} more" if len(bad) > 1 else "") +
+               ": for the types that reach it an over-long length is accepted and elements[] is overrun")
+    ctx.floor(R + ":every-path", n, 3)
+
+
 def rule_union_index(ctx, cd):
     R = "R-C04-UNION-INDEX"
     ctx.rule(
@@ -324,6 +351,7 @@ def run(ctx):
     cd = Codec(ts)
     rule_write_bound(ctx, cd)
     rule_index_bound(ctx, cd)
+    rule_count_rejected_everywhere(ctx, cd)
     rule_union_index(ctx, cd)
     rule_replace(ctx, cd)
     rule_dtor_pair(ctx, cd)
